@@ -99,7 +99,7 @@ func genProcJob(g gen) ProcJob {
 
 func generateProc(seed uint64) *Scenario {
 	g := gen{rand.New(rand.NewPCG(seed, 0x50524f43))}
-	ps := &ProcScenario{KillTimeoutMs: 1000}
+	ps := &ProcScenario{KillTimeoutMs: g.oneOf(1000, 1000, 300, 0)}
 	n := 1 + g.n(3)
 	for i := 0; i < n; i++ {
 		j := genProcJob(g)
